@@ -163,7 +163,11 @@ class Recorder:
         return int(getattr(p, "_verif_level", 0))
 
     def truth(self, x, level: int = 0) -> float:
-        return objectives.truth(self.fn_of(level), x, self.bounds, self.maximize)
+        v = objectives.truth(self.fn_of(level), x, self.bounds, self.maximize)
+        form = getattr(self, "ret_form", "py")
+        if form == "f32":           # the user's function computes in single precision: that IS its value
+            return float(np.float32(v))
+        return v
 
     def ind(self, ind) -> list:
         """[gid, goodness(raw float, ranked later), inbox, tru] ; tru: 1 true fitness, 0 wrong, 2 cutoff sentinel"""
@@ -621,9 +625,13 @@ class LevelObjective:
         self.level = level
 
     def __call__(self, x, *a, **k):
-        v = objectives.truth(self.rec.fn_of(self.level), x, self.rec.bounds, self.rec.maximize)
+        v = self.rec.truth(x, self.level)
         self.rec.note_call(self.level, x, v)
         form = getattr(self.rec, "ret_form", "py")
+        if form == "f32":
+            return np.float32(v)
+        if form == "i64":           # an integer-valued objective (a count) returned as a numpy integer
+            return np.int64(v) if float(v).is_integer() else v
         if form == "arr0":          # what np.where / np.squeeze / np.asarray leave behind: a 0-d array (a mutable object)
             return np.asarray(v, dtype=np.float64)
         if form == "np64":
